@@ -219,7 +219,7 @@ func registerAll() {
 
 func TestPropGenerated(t *testing.T) {
 	registerAll()
-	ev.Rapid(t, "len", ev.N(1500, 20000), genCase, judged)
+	ev.Rapid(t, "len", ev.N(4000, 20000), genCase, judged)
 }
 
 // the accepted part of the repository's own test corpus x a fixed trailer set x three newline conventions
